@@ -68,7 +68,7 @@ example : (run init [.new 0 [2] 2 [0, 0, 0, 0], .copy 0 3, .copy 0 6, .new 9 [2]
     .daddBw 9 3 6, .dsubBw 9 3 6, .new 12 [1] 2 [5, 6], .dsliceBw 12 0 1 3, .flatten 3 15, .dimul 15 2, .readall]).2.getLast?
     = some (.all [(0, some (⟨[2], 2, 2⟩, [0, 0, 0, 0])), (3, some (⟨[2], 2, 2⟩, [2, 9, 6, 14])),
         (6, some (⟨[2], 2, 2⟩, [0, 0, 0, 0])), (9, some (⟨[2], 2, 2⟩, [1, 2, 3, 4])),
-        (12, some (⟨[], 2, 1⟩, [5, 6])), (15, some (⟨[4], 1, 4⟩, [4, 18, 12, 28]))]) := by decide
+        (12, some (⟨[], 2, 1⟩, [5, 6])), (15, some (⟨[2], 2, 2⟩, [4, 18, 12, 28]))]) := by decide
 
 /-- … and the target gets the value the specification prescribes (one instance
 spelled out: `h += g` on valid operands of admissible shapes). -/
@@ -228,11 +228,11 @@ theorem invalid_rejects_everything {s : State} {h : Nat} (hinv : getSlot s.pool 
   case daddBw gy ga gb =>
     simp [issued] at hex
     obtain ⟨⟨⟨⟨⟨e1, e2⟩, e3⟩, n1⟩, n2⟩, n3⟩ := hex
-    exact abBwOp_invalid _ (by simp [n1, n2, n3]) e1 e2 e3 (by rcases hu with hu | hu | hu <;> subst hu <;> simp [hinv])
+    exact abBwOp_invalid _ (by simp [n1, n2, n3]) e1 e2 e3 (by rcases hu with (hu | hu) | hu <;> subst hu <;> simp [hinv])
   case dsubBw gy ga gb =>
     simp [issued] at hex
     obtain ⟨⟨⟨⟨⟨e1, e2⟩, e3⟩, n1⟩, n2⟩, n3⟩ := hex
-    exact abBwOp_invalid _ (by simp [n1, n2, n3]) e1 e2 e3 (by rcases hu with hu | hu | hu <;> subst hu <;> simp [hinv])
+    exact abBwOp_invalid _ (by simp [n1, n2, n3]) e1 e2 e3 (by rcases hu with (hu | hu) | hu <;> subst hu <;> simp [hinv])
 
 example : getSlot (run init [.new 0 [2] 1 [1, 2], .move 0 3]).1.pool 0 = some .invalid := by decide
 
